@@ -573,6 +573,35 @@ def cmdLexAll (fields : List String) : Except String String :=
            " ".intercalate (es.map (fun x => s!"{x.line}:{x.col}:{bytesHex (String.ofList x.text).toUTF8.toList}")))
   | _ => .error "lexall: expected 1 field"
 
+/-- `clirun <source> <parse|fail|ok> <payload>`: payload = blank-separated `range message` pairs (parse, fail) or the
+    JSON text (ok), strings encoded; answers `ok <hex stdout> <hex stderr> <exit>` or `panic` -/
+def cmdCliRun (fields : List String) : Except String String :=
+  match fields with
+  | [src, kind, payload] => do
+      let source ← decStr src
+      let rec pairsOf : List String → Except String (List (String × Range))
+        | r :: m :: rest => do
+            let r' ← parseRange r
+            let m' ← decStr m
+            let tl ← pairsOf rest
+            pure ((m', r') :: tl)
+        | [] => pure []
+        | _ => .error "clirun: bad pair list"
+      let outcome ← (if kind = "parse" then do
+            let l ← pairsOf (words payload); pure (RunOutcome.parseErrors l)
+          else if kind = "fail" then do
+            let l ← pairsOf (words payload)
+            match l with
+            | [(m, r)] => pure (RunOutcome.failed m r)
+            | _ => .error "clirun: fail needs one pair"
+          else do
+            let j ← decStr payload; pure (RunOutcome.ok j))
+      match cliRun source.toList outcome with
+      | .ok o => .ok s!"ok\t{bytesHex o.stdout.toUTF8.toList}\t{bytesHex o.stderr.toUTF8.toList}\t{o.exit}"
+      | .panic s => .ok s!"panic\t{encStr s}"
+      | .err _ => .ok "err"
+  | _ => .error "clirun: expected 3 fields"
+
 def dispatch (cmd : String) (fields : List String) : Except String String :=
   if cmd = "exec" then cmdExec fields
   else if cmd = "reconcile" then cmdReconcile fields
@@ -585,6 +614,7 @@ def dispatch (cmd : String) (fields : List String) : Except String String :=
   else if cmd = "lex" then cmdLex fields
   else if cmd = "checkreport" then cmdCheckReport fields
   else if cmd = "lexall" then cmdLexAll fields
+  else if cmd = "clirun" then cmdCliRun fields
   else if cmd = "readframes" then cmdReadFrames fields
   else if cmd = "encodeframes" then cmdEncodeFrames fields
   else .error s!"unknown command {cmd}"
